@@ -9,6 +9,16 @@ T_TOOLS = 'T10 Verus 0.2026.09.13, Z3, rustc; machine integers are checked (not 
 T_RPO = 'T4 RPO hash (miden-crypto hash_elements / merge_in_domain) uninterpreted; collision resistance NOT assumed'
 
 PROPS = {
+    'C04': {
+        'level': 'proof',
+        'units': ['air_field', 'air_u32', 'air_stack'],
+        'kani': [],
+        'trusted_base': [T_FELT, T_TOOLS, 'T2 P prime (no zero divisors) axiom', 'T6 winterfell EvaluationFrame stand-in', 'A-flags: OpFlags accessor values uninterpreted (OpFlags::new not yet under contract)'],
+        'not_decided': ['OpFlags::new (flags from op bits: one-hot, composite shift flags)', 'chiplet constraints (hasher, bitwise, memory) and range checker', 'cross-row lookup soundness (LogUp / multiset arguments)', 'constraint degree declarations'],
+        'sample_obligations': ['C04/air_stack/system_ops::enforce_constraints#ensures.0 : 4 constraints incl. CLK (s0\' - clk)',
+                               'C04/air_field/enforce_eq_constraints#ensures.2 : result[1] == flag * (s0\' - (1 - (s0 - s1) * h0))',
+                               'C04/air_field/sound_eq (hub lemma): flag = 1 and both constraints 0 ==> s0\' == (s0 == s1 ? 1 : 0)'],
+    },
     'C13': {
         'level': 'proof',
         'units': ['executor', 'span_batch'],
